@@ -461,6 +461,22 @@ def p1_remainder(ctx: Ctx):
     txt = norm(fn, 100000)
     ctx.check('Range3(None, self._ref(lo), self._ref(hi), Integer(1, None), None)' in txt and '*clone_block(body).stmts' in txt, SPLIT, fn, q,
               'residual loop over [lo, hi) with a fresh copy of the body', 'residual loop changed')
+    # ---- the static length both transforms decide the remainder with: stated by the array-size analysis and by nothing
+    # else (a second opinion computed from the syntax of the iterable has to agree with Python's len(range(..)) on every
+    # step and span, and is one more place to get floor / ceiling wrong)
+    q = 'static_size'
+    fn = ctx.fn(UTILS, q)
+    params = [a.arg for a in fn.args.args]
+    derived = {params[0]}
+    for _ in range(4):
+        for s in walk_no_nested(fn):
+            if isinstance(s, ast.Assign) and any(isinstance(x, ast.Name) and x.id in derived for x in ast.walk(s.value)):
+                derived |= {t.id for t in s.targets if isinstance(t, ast.Name)}
+    for r in [s for s in walk_no_nested(fn) if isinstance(s, ast.Return)]:
+        v = r.value
+        from_analysis = v is None or (isinstance(v, ast.Constant) and v.value is None) or any(isinstance(x, ast.Name) and x.id in derived for x in ast.walk(v))
+        ctx.check(from_analysis, UTILS, r, q, f'`{norm(r)}`: a static length comes from the array-size analysis (or is unknown)',
+                  'a length computed beside the analysis: with `(stop - start) // step` the last element of range(0, 5, 2) is dropped by unroll_for and split')
 
 
 # ----------------------------------------------------------------------
@@ -629,6 +645,9 @@ RULES = [
 from ..selftest import Mutant  # noqa: E402
 
 MUTANTS = [
+    Mutant('range-length-read-off-the-literals', UTILS, "    if array_size is None:\n        return None\n    bound = array_size.by_expr.get(iterable)",
+           "    if isinstance(iterable, Range3) and all(isinstance(a, Integer) for a in (iterable.first, iterable.second, iterable.third)) and iterable.third.val > 0:\n        return max(0, (iterable.second.val - iterable.first.val) // iterable.third.val)\n    if array_size is None:\n        return None\n    bound = array_size.by_expr.get(iterable)", 'C08.P1',
+           'seeded change C08e: range(0, 5, 2) is taken to have two elements'),
     Mutant('all-targets-shadow-every-iterable', ITER, "                iterables.append(self._visit_expr(iterable, ctx))\n                for name in _binding_names(target):\n                    if name in self._subst:\n                        shadowed[name] = self._subst.pop(name)\n",
            "                for name in _binding_names(target):\n                    if name in self._subst:\n                        shadowed[name] = self._subst.pop(name)\n                iterables.append(self._visit_expr(iterable, ctx))\n", 'C08.X1',
            'finding F90 before its repair: the first iterable of a nested comprehension loses the substitution'),
